@@ -11,6 +11,7 @@ CONSTANTS
  FP <- FPid
  MaxOps = 1
  MaxCount = 0
+ WithScan = TRUE
  AllowClose = FALSE
  Dev = {}
  MaxHist = 12
